@@ -77,6 +77,8 @@ structure Inv (m : κ → α → Bool) (s : St α κ) : Prop where
   core : Core s
   acc  : Acc m s
   pend : Pend s
+  /-- between handlers, no outstanding run means everything in the pool has been taken -/
+  idle : s.mc = none → s.pool.taken = s.pool.pool.length
 
 theorem eff_dont (s : St α κ) (h : s.clear = .dont) : eff s = s.list := by simp [eff, h]
 theorem eff_pending (s : St α κ) (h : s.clear ≠ .dont) : eff s = [] := by simp [eff, h]
@@ -87,10 +89,10 @@ theorem inv_restart (m : κ → α → Bool) (s : St α κ) (hc : Core s) (hmc :
   unfold restart
   by_cases hd : readerDone s = true
   · simp only [hd, if_true]
-    exact ⟨⟨hc.pinv, hc.nopt, hc.src, hc.dead⟩, ⟨rfl, hacc⟩, fun _ _ h => by simp at h⟩
+    exact ⟨⟨hc.pinv, hc.nopt, hc.src, hc.dead⟩, ⟨rfl, hacc⟩, fun _ _ h => by simp at h, fun h => by simp at h⟩
   · simp only [hd, Bool.false_eq_true, if_false]
     obtain ⟨ys, hys⟩ := append_pool_prefix s.pool s.buf
-    refine ⟨⟨append_inv _ _ hc.pinv, hc.nopt, ?_, hc.dead⟩, ⟨rfl, ?_⟩, fun _ _ h => by simp at h⟩
+    refine ⟨⟨append_inv _ _ hc.pinv, hc.nopt, ?_, hc.dead⟩, ⟨rfl, ?_⟩, fun _ _ h => by simp at h, fun h => by simp at h⟩
     · show (s.pool.append s.buf).1.reserved ++ (s.pool.append s.buf).1.pool ++ [] ++ s.unread = s.source
       rw [append_all _ _ hc.pinv, List.append_nil]; exact hc.src
     · show (eff s).Perm (hitsFrom m s.q 0 ((s.pool.append s.buf).1.pool.take (s.pool.append s.buf).1.taken))
@@ -110,8 +112,10 @@ theorem harvest_acc (m : κ → α → Bool) (s : St α κ) (r : MRun α κ) (rs
     Core (harvest s r rs) ∧
     (eff (harvest s r rs)).Perm
       (hitsFrom m (harvest s r rs).q 0 ((harvest s r rs).pool.pool.take (harvest s r rs).pool.taken)) ∧
-    (s.noClearIfEmpty = false → (harvest s r rs).clear ≠ .dont → rs = false) := by
+    (s.noClearIfEmpty = false → (harvest s r rs).clear ≠ .dont → rs = false) ∧
+    (harvest s r rs).pool.taken = (harvest s r rs).pool.pool.length := by
   obtain ⟨hq, htk, hst, hsl, hperm, hres⟩ := acc_stopped m s r h.acc hmc hp
+  refine (fun (x : _ ∧ _ ∧ _) => ⟨x.1, x.2.1, x.2.2, htk⟩) ?_
   have hall : hitsFrom m s.q 0 (s.pool.pool.take s.pool.taken) =
       hitsFrom m s.q 0 (s.pool.pool.take r.start) ++ r.result := by
     rw [hres, hsl, htk, List.take_length]
@@ -183,13 +187,14 @@ theorem inv_transfer (m : κ → α → Bool) (s s' : St α κ) (h : Inv m s)
     (e8 : s'.unread = s.unread) (e9 : s'.live = s.live) (e10 : s'.source = s.source)
     (e11 : s'.noClearIfEmpty = s.noClearIfEmpty) : Inv m s' := by
   have he : eff s' = eff s := by simp [eff, e4, e5]
-  refine ⟨⟨?_, ?_, ?_, ?_⟩, ?_, ?_⟩
+  refine ⟨⟨?_, ?_, ?_, ?_⟩, ?_, ?_, ?_⟩
   · rw [e1]; exact h.core.pinv
   · rw [e6, he]; exact h.core.nopt
   · rw [e1, e7, e8, e10]; exact h.core.src
   · rw [e9, e8]; exact h.core.dead
   · have := h.acc; unfold Acc at *; rw [e2, e3, e1, he]; exact this
   · have := h.pend; unfold Pend at *; rw [e11, e4, e2]; exact this
+  · rw [e2, e1]; exact h.idle
 
 theorem inv_decide1 (m : κ → α → Bool) (s : St α κ) (h : Inv m s) : Inv m (decide1 s) := by
   unfold decide1
@@ -225,7 +230,8 @@ theorem inv_hbMain (m : κ → α → Bool) (s : St α κ) (rd : Reads) (h : Inv
       ((hbHarvest s rs ms).mc = none →
         (eff (hbHarvest s rs ms)).Perm (hitsFrom m (hbHarvest s rs ms).q 0
           ((hbHarvest s rs ms).pool.pool.take (hbHarvest s rs ms).pool.taken)) ∧
-        ((hbHarvest s rs ms).noClearIfEmpty = false → (hbHarvest s rs ms).clear ≠ .dont → rs = false)) ∧
+        ((hbHarvest s rs ms).noClearIfEmpty = false → (hbHarvest s rs ms).clear ≠ .dont → rs = false) ∧
+        (hbHarvest s rs ms).pool.taken = (hbHarvest s rs ms).pool.pool.length) ∧
       ((hbHarvest s rs ms).mc ≠ none → Inv m (hbHarvest s rs ms)) := by
     cases hmsv : ms with
     | false =>
@@ -233,7 +239,7 @@ theorem inv_hbMain (m : κ → α → Bool) (s : St α κ) (rd : Reads) (h : Inv
       rw [e]
       refine ⟨h.core, ?_, fun _ => h⟩
       intro hn
-      refine ⟨?_, ?_⟩
+      refine ⟨?_, ?_, h.idle hn⟩
       · have := h.acc; unfold Acc at this; rw [hn] at this; exact this
       · intro hnce hcl; exact absurd hn (h.pend hnce hcl)
     | true =>
@@ -242,18 +248,18 @@ theorem inv_hbMain (m : κ → α → Bool) (s : St α κ) (rd : Reads) (h : Inv
       obtain ⟨r, hmc, hp⟩ := matcherStopped_spec s hst
       have e : hbHarvest s rs true = harvest s r rs := by unfold hbHarvest; rw [hmc]
       rw [e]
-      obtain ⟨hc, hacc, hpend⟩ := harvest_acc m s r rs h hmc hp
-      refine ⟨hc, fun _ => ⟨hacc, hpend⟩, ?_⟩
+      obtain ⟨hc, hacc, hpend, htk⟩ := harvest_acc m s r rs h hmc hp
+      refine ⟨hc, fun _ => ⟨hacc, hpend, htk⟩, ?_⟩
       intro hne; exact absurd rfl hne
   generalize hbHarvest s rs ms = s1 at key
   obtain ⟨hc1, hnone, hsome⟩ := key
   generalize hic : (rd.ic && itemsConsumed s1) = ic
   have inv2 : Inv m (if (!(rs && ic) && s1.mc.isNone) = true then restart s1 else s1) := by
     by_cases hmc1 : s1.mc = none
-    · obtain ⟨hacc, hpend⟩ := hnone hmc1
+    · obtain ⟨hacc, hpend, htk1⟩ := hnone hmc1
       by_cases hproc : (rs && ic) = true
       · simp only [hproc, Bool.not_true, Bool.false_and, Bool.false_eq_true, if_false]
-        refine ⟨hc1, ?_, ?_⟩
+        refine ⟨hc1, ?_, ?_, fun _ => htk1⟩
         · unfold Acc; rw [hmc1]; exact hacc
         · intro hnce hcl
           have := hpend hnce hcl
@@ -366,7 +372,7 @@ theorem inv_step (m : κ → α → Bool) (s s' : St α κ) (l : Label α κ) (h
     · split at hs
       · rename_i x u hl hu
         cases hs
-        refine ⟨⟨h.core.pinv, h.core.nopt, ?_, ?_⟩, h.acc, h.pend⟩
+        refine ⟨⟨h.core.pinv, h.core.nopt, ?_, ?_⟩, h.acc, h.pend, h.idle⟩
         · show s.pool.reserved ++ s.pool.pool ++ (s.buf ++ [x]) ++ u = s.source
           rw [← h.core.src, hu]; simp
         · intro hl'; rw [hl] at hl'; cases hl'
@@ -378,7 +384,7 @@ theorem inv_step (m : κ → α → Bool) (s s' : St α κ) (l : Label α κ) (h
     · split at hs
       · rename_i hl hu
         cases hs
-        exact ⟨⟨h.core.pinv, h.core.nopt, h.core.src, fun _ => hu⟩, h.acc, h.pend⟩
+        exact ⟨⟨h.core.pinv, h.core.nopt, h.core.src, fun _ => hu⟩, h.acc, h.pend, h.idle⟩
       · cases hs
   | tTake =>
     simp only [step, stepWith] at hs
@@ -390,7 +396,7 @@ theorem inv_step (m : κ → α → Bool) (s s' : St α κ) (l : Label α κ) (h
         cases hs
         have hacc := h.acc
         unfold Acc at hacc; rw [hmc] at hacc; simp only [hp'] at hacc
-        refine ⟨⟨step_inv s.pool .take h.core.pinv, h.core.nopt, h.core.src, h.core.dead⟩, ?_, ?_⟩
+        refine ⟨⟨step_inv s.pool .take h.core.pinv, h.core.nopt, h.core.src, h.core.dead⟩, ?_, ?_, fun hn => by cases hn⟩
         · unfold Acc
           exact ⟨hacc.1, rfl, h.core.pinv.taken_le, rfl, hacc.2⟩
         · intro _ _ hn; cases hn
@@ -406,7 +412,7 @@ theorem inv_step (m : κ → α → Bool) (s s' : St α κ) (l : Label α κ) (h
         cases hs
         have hacc := h.acc
         unfold Acc at hacc; rw [hmc] at hacc; simp only [hp'] at hacc
-        refine ⟨⟨h.core.pinv, h.core.nopt, h.core.src, h.core.dead⟩, ?_, ?_⟩
+        refine ⟨⟨h.core.pinv, h.core.nopt, h.core.src, h.core.dead⟩, ?_, ?_, fun hn => by cases hn⟩
         · unfold Acc
           refine ⟨hacc.1, hacc.2.1, hacc.2.2.1, hacc.2.2.2.1, hacc.2.2.2.2, ?_⟩
           show hitsFrom m r.q r.start r.slice = hitsFrom m s.q r.start r.slice
@@ -424,7 +430,7 @@ theorem inv_step (m : κ → α → Bool) (s s' : St α κ) (l : Label α κ) (h
         cases hs
         have hacc := h.acc
         unfold Acc at hacc; rw [hmc] at hacc; simp only [hp'] at hacc
-        refine ⟨⟨h.core.pinv, h.core.nopt, h.core.src, h.core.dead⟩, ?_, ?_⟩
+        refine ⟨⟨h.core.pinv, h.core.nopt, h.core.src, h.core.dead⟩, ?_, ?_, fun hn => by cases hn⟩
         · unfold Acc; exact hacc
         · intro _ _ hn; cases hn
       · cases hs
@@ -452,7 +458,7 @@ theorem inv_step (m : κ → α → Bool) (s s' : St α κ) (l : Label α κ) (h
 
 theorem inv_initWith (m : κ → α → Bool) (o : Opts) (q : κ) (src : List α) : Inv m (initWith o q src) := by
   refine ⟨⟨Pool.inv_init _, rfl, by simp [initWith], fun h => by simp [initWith] at h⟩, ?_,
-    fun _ h => by simp [initWith] at h⟩
+    fun _ h => by simp [initWith] at h, fun _ => rfl⟩
   unfold Acc; simp [initWith, eff, hitsFrom_nil]
 
 theorem inv_runL (m : κ → α → Bool) (s : St α κ) (ls : List (Label α κ)) (h : Inv m s) :
